@@ -238,11 +238,12 @@ def detect(ctx):
 WIDTHS = {'chain': 32, 'parent_fingerprint': 4, 'private_byte': 32, 'public_compressed_byte': 33}
 
 
-def _xkey_writer_layout(ctx, private):
+def _xkey_writer_layout(ctx, private, compressed=True):
     fn = ctx.repo.func('keys:HDKey.wif')
     it = Interp(ctx.repo, 'keys', hooks=dict(LAYOUT_HOOKS), self_cls='keys:HDKey')
     st = State()
     st.heap[A(SELF, 'is_private')] = True
+    st.heap[A(SELF, 'compressed')] = compressed
     exits = it.run_function(fn, {'self': S(SELF), 'is_private': private, 'child_index': None, 'prefix': None, 'witness_type': None, 'multisig': None}, st=st)
     rets = [e for e in exits if e.kind == 'return']
     if not rets:
@@ -347,6 +348,13 @@ def xkey_layout(ctx):
     from its own position with the inverse conversion, select private / public by the 00 marker and require 82 bytes and the checksum."""
     B = ('call', 'change_base', (('var', 'wif'), 58, 256), ())
     lays = {p: _xkey_writer_layout(ctx, p) for p in (True, False)}
+    # an uncompressed key (non-standard, but accepted) must export the same layouts
+    for p in (True, False):
+        u = _xkey_writer_layout(ctx, p, compressed=False)
+        if u != lays[p]:
+            names = [x[0] for x in u if isinstance(x, tuple)]
+            ctx.violate('keys:HDKey.wif', 'an uncompressed key writes another %s extended key layout: %s' % ('private' if p else 'public', seg.fmt(seg.seg(*u))), None,
+                        'the public extended key of an uncompressed HDKey carries the private key' if (not p and 'private_byte' in names) else 'extended keys of uncompressed keys cannot be imported')
     for p, lay in lays.items():
         ctx.saw('HDKey.wif(is_private=%s) writes %s' % (p, seg.fmt(seg.seg(*lay))))
         ctx.require(seg.seg_len(seg.seg(*lay)) == 82, 'keys:HDKey.wif', 'extended %s key is %d bytes long, BIP32 says 82' % ('private' if p else 'public', seg.seg_len(seg.seg(*lay))), None)
